@@ -30,7 +30,10 @@ Inductive out :=
 | OList (l : list out)
 | OBad.                                        (* malformed case line / unknown op *)
 
-Definition nats (l : list Z) : list nat := map Z.to_nat l.
+(* numbers far beyond any array of the check (2^31, 2^62, ...) are clamped so that Peano nat stays small; every
+   comparison the model performs with them (>= rank, >= length) has the same outcome *)
+Definition clamp (z : Z) : nat := Z.to_nat (Z.min z 100000).
+Definition nats (l : list Z) : list nat := map clamp l.
 Definition zs (l : list nat) : list Z := map Z.of_nat l.
 Definition mka (sh es : list Z) : arr Z := mk es (nats sh).
 
@@ -44,13 +47,13 @@ Definition table_index : list (string * (list arg -> out)) :=
   [ ("index_at", fun args => match args with
        | [AL sh; AL c] => out_res onat (index_at (nats sh) (nats c)) | _ => OBad end)
   ; ("index_to_coord", fun args => match args with
-       | [AL sh; AZ i] => out_res onats (index_to_coord (prod (nats sh)) (nats sh) (Z.to_nat i)) | _ => OBad end)
+       | [AL sh; AZ i] => out_res onats (index_to_coord (prod (nats sh)) (nats sh) (clamp i)) | _ => OBad end)
   ; ("at", fun args => match args with
        | [AA sh es; AL c] => out_res OZ (at_ (mka sh es) (nats c)) | _ => OBad end)
   ; ("index_coords", fun args => match args with
        | [AA sh es; AL c] => out_res OZ (index_coords (mka sh es) (nats c)) | _ => OBad end)
   ; ("index_usize", fun args => match args with
-       | [AA sh es; AZ i] => out_res OZ (index_usize (mka sh es) (Z.to_nat i)) | _ => OBad end)
+       | [AA sh es; AZ i] => out_res OZ (index_usize (mka sh es) (clamp i)) | _ => OBad end)
   ].
 
 Definition optl (a : arg) : option (option (list Z)) :=
@@ -58,7 +61,7 @@ Definition optl (a : arg) : option (option (list Z)) :=
 Definition optz (a : arg) : option (option Z) :=
   match a with AN => Some None | AZ z => Some (Some z) | _ => None end.
 Definition optn (a : arg) : option (option nat) :=
-  match a with AN => Some None | AZ z => Some (Some (Z.to_nat z)) | _ => None end.
+  match a with AN => Some None | AZ z => Some (Some (clamp z)) | _ => None end.
 Definition orarr (r : res (arr Z)) : out := out_res oarr r.
 
 Definition table_axis : list (string * (list arg -> out)) :=
@@ -89,11 +92,11 @@ Definition table_axis : list (string * (list arg -> out)) :=
        | [AA sh es; AL s] => orarr (reshape (mka sh es) (nats s)) | _ => OBad end)
   ; ("ravel", fun args => match args with [AA sh es] => orarr (ravel (mka sh es)) | _ => OBad end)
   ; ("atleast", fun args => match args with
-       | [AA sh es; AZ n] => orarr (atleast (mka sh es) (Z.to_nat n)) | _ => OBad end)
+       | [AA sh es; AZ n] => orarr (atleast (mka sh es) (clamp n)) | _ => OBad end)
   ; ("resize", fun args => match args with
        | [AA sh es; AL s] => orarr (resize 0%Z (mka sh es) (nats s)) | _ => OBad end)
   ; ("cycle_take", fun args => match args with
-       | [AA sh es; AZ n] => orarr (cycle_take 0%Z (mka sh es) (Z.to_nat n)) | _ => OBad end)
+       | [AA sh es; AZ n] => orarr (cycle_take 0%Z (mka sh es) (clamp n)) | _ => OBad end)
   ].
 
 Definition oparr (a : arr (Z * Z)) : out := OPArr (shape a) (elems a).
@@ -306,20 +309,20 @@ Definition table_reduce : list (string * (list arg -> out)) :=
   ; ("lane1", fun _ => OZ 0%Z)
   ; ("array_split", fun args => match args with
        | [AA s e; AZ parts; ax] => match optn ax with
-           | Some ax => out_res oarrs (array_split 0%Z (mka s e) (Z.to_nat parts) ax) | None => OBad end
+           | Some ax => out_res oarrs (array_split 0%Z (mka s e) (clamp parts) ax) | None => OBad end
        | _ => OBad end)
   ; ("split", fun args => match args with
        | [AA s e; AZ parts; ax] => match optn ax with
-           | Some ax => out_res oarrs (split_even 0%Z (mka s e) (Z.to_nat parts) ax) | None => OBad end
+           | Some ax => out_res oarrs (split_even 0%Z (mka s e) (clamp parts) ax) | None => OBad end
        | _ => OBad end)
   ; ("split_axis", fun args => match args with
-       | [AA s e; AZ ax] => out_res oarrs (split_axis 0%Z (mka s e) (Z.to_nat ax)) | _ => OBad end)
+       | [AA s e; AZ ax] => out_res oarrs (split_axis 0%Z (mka s e) (clamp ax)) | _ => OBad end)
   ; ("hsplit", fun args => match args with
-       | [AA s e; AZ parts] => out_res oarrs (hsplit 0%Z (mka s e) (Z.to_nat parts)) | _ => OBad end)
+       | [AA s e; AZ parts] => out_res oarrs (hsplit 0%Z (mka s e) (clamp parts)) | _ => OBad end)
   ; ("vsplit", fun args => match args with
-       | [AA s e; AZ parts] => out_res oarrs (vsplit 0%Z (mka s e) (Z.to_nat parts)) | _ => OBad end)
+       | [AA s e; AZ parts] => out_res oarrs (vsplit 0%Z (mka s e) (clamp parts)) | _ => OBad end)
   ; ("dsplit", fun args => match args with
-       | [AA s e; AZ parts] => out_res oarrs (dsplit 0%Z (mka s e) (Z.to_nat parts)) | _ => OBad end)
+       | [AA s e; AZ parts] => out_res oarrs (dsplit 0%Z (mka s e) (clamp parts)) | _ => OBad end)
   ].
 
 (* ---- C10: sorting ---- *)
@@ -375,7 +378,7 @@ Definition table_reorder : list (string * (list arg -> out)) :=
        | [AA s e; AL sh; ax] => match optl ax with Some ax => orarr (roll 0%Z (mka s e) sh ax) | None => OBad end
        | _ => OBad end)
   ; ("rot90", fun args => match args with
-       | [AA s e; AZ k; AL ax] => orarr (rot90 0%Z (mka s e) (Z.to_nat k) ax) | _ => OBad end)
+       | [AA s e; AZ k; AL ax] => orarr (rot90 0%Z (mka s e) (clamp k) ax) | _ => OBad end)
   ].
 
 (* ---- C13: delete, insert, repeat, trim ---- *)
@@ -389,7 +392,7 @@ Definition table_edit : list (string * (list arg -> out)) :=
        | _ => OBad end)
   ; ("insert_entry", fun args => match args with
        | [AA s e; AL idx; AA s2 e2; AZ ax] =>
-         match insert_axis_entry (mka s e) (nats idx) (Z.to_nat ax) with
+         match insert_axis_entry (mka s e) (nats idx) (clamp ax) with
          | Ok _ => OZ 1 | Err e => OErr e | Panic => OPanic | Fuel => OFuel end
        | _ => OBad end)
   ; ("trim_zeros", fun args => match args with
@@ -444,14 +447,14 @@ Definition table_create : list (string * (list arg -> out)) :=
   ; ("ones_like", fun args => match args with [AA s e] => orarr (full_like (mka s e) 1%Z) | _ => OBad end)
   ; ("eye", fun args => match args with
        | [AZ n; m; k] => match optn m, optn k with
-           | Some m, Some k => orarr (eye 0%Z 1%Z (Z.to_nat n) (match m with Some m => m | None => Z.to_nat n end)
+           | Some m, Some k => orarr (eye 0%Z 1%Z (clamp n) (match m with Some m => m | None => Z.to_nat n end)
                                           (match k with Some k => k | None => 0 end))
            | _, _ => OBad end
        | _ => OBad end)
-  ; ("identity", fun args => match args with [AZ n] => orarr (identity 0%Z 1%Z (Z.to_nat n)) | _ => OBad end)
+  ; ("identity", fun args => match args with [AZ n] => orarr (identity 0%Z 1%Z (clamp n)) | _ => OBad end)
   ; ("tri", fun args => match args with
        | [AZ n; m; k] => match optn m, optz k with
-           | Some m, Some k => orarr (tri 0%Z 1%Z (Z.to_nat n) (match m with Some m => m | None => Z.to_nat n end)
+           | Some m, Some k => orarr (tri 0%Z 1%Z (clamp n) (match m with Some m => m | None => Z.to_nat n end)
                                           (match k with Some k => k | None => 0%Z end))
            | _, _ => OBad end
        | _ => OBad end)
